@@ -10,7 +10,7 @@ use mio::net::UdpSocket;
 use aquatic_verif_rt::net::udp::UdpSocket;
 use socket2::{Domain, Protocol, Type};
 
-use aquatic_common::{privileges::PrivilegeDropper, CanonicalSocketAddr};
+use aquatic_common::CanonicalSocketAddr;
 use aquatic_udp_protocol::*;
 
 use crate::config::Config;
@@ -46,10 +46,10 @@ pub struct Socket<V> {
 }
 
 impl Socket<Ipv4> {
-    pub fn create(config: &Config, priv_dropper: PrivilegeDropper) -> anyhow::Result<Self> {
+    pub fn create(config: &Config) -> anyhow::Result<Self> {
         #[cfg(aquatic_verif)]
         {
-            return Self::verif_create(config, priv_dropper, config.network.address_ipv4.into());
+            return Self::verif_create(config, config.network.address_ipv4.into());
         }
         let socket = socket2::Socket::new(Domain::IPV4, Type::DGRAM, Some(Protocol::UDP))?;
 
@@ -91,8 +91,6 @@ impl Socket<Ipv4> {
             .bind(&config.network.address_ipv4.into())
             .with_context(|| format!("socket: bind to {}", config.network.address_ipv4))?;
 
-        priv_dropper.after_socket_creation()?;
-
         let mut s = Self {
             socket: UdpSocket::from_std(::std::net::UdpSocket::from(socket)),
             opt_resend_buffer: None,
@@ -108,10 +106,10 @@ impl Socket<Ipv4> {
 }
 
 impl Socket<Ipv6> {
-    pub fn create(config: &Config, priv_dropper: PrivilegeDropper) -> anyhow::Result<Self> {
+    pub fn create(config: &Config) -> anyhow::Result<Self> {
         #[cfg(aquatic_verif)]
         {
-            return Self::verif_create(config, priv_dropper, config.network.address_ipv6.into());
+            return Self::verif_create(config, config.network.address_ipv6.into());
         }
         let socket = socket2::Socket::new(Domain::IPV6, Type::DGRAM, Some(Protocol::UDP))?;
 
@@ -158,8 +156,6 @@ impl Socket<Ipv6> {
             .bind(&config.network.address_ipv6.into())
             .with_context(|| format!("socket: bind to {}", config.network.address_ipv6))?;
 
-        priv_dropper.after_socket_creation()?;
-
         let mut s = Self {
             socket: UdpSocket::from_std(::std::net::UdpSocket::from(socket)),
             opt_resend_buffer: None,
@@ -179,13 +175,10 @@ impl<V: IpVersion> Socket<V> {
     #[cfg(aquatic_verif)]
     fn verif_create(
         config: &Config,
-        priv_dropper: PrivilegeDropper,
         address: ::std::net::SocketAddr,
     ) -> anyhow::Result<Self> {
         let socket = UdpSocket::sim_bind(!V::is_v4(), config.network.set_only_ipv6, address)
             .with_context(|| format!("socket: bind to {}", address))?;
-
-        priv_dropper.after_socket_creation()?;
 
         let mut s = Self {
             socket,
